@@ -85,10 +85,27 @@ Definition show_applied (r : mres (list (aitem zgate) * list bool)) : string :=
   | MOk (items, ms) => show_items items ++ " | " ++ show_bits ms
   | MErr e => "Err:" ++ show_merr e
   end.
-Definition show_sim (r : mres (list (aitem zgate) * list bool * cvec * Cy)) : string :=
+(* records (keys of all_frequencies) of the branch of outcome string d: outcomes used + every final basis state
+   with a non-zero exact amplitude *)
+Definition support (v : cvec) : list N :=
+  map (fun ia => N.of_nat (fst ia)) (filter (fun ia => negb (cy_is_zero (snd ia))) (combine (seq 0 (length v)) v)).
+Definition show_records (n : nat) (r : mres (list (aitem zgate) * list bool * cvec * Cy)) : string :=
+  match r with
+  | MOk (_, ms, v, _) => join "," (map (fun x => show_bits (record n ms x)) (support v))
+  | MErr e => "Err:" ++ show_merr e
+  end.
+
+Definition show_sim_core (r : mres (list (aitem zgate) * list bool * cvec * Cy)) : string :=
   match r with
   | MOk (items, ms, v, p) => show_items items ++ " | " ++ show_bits ms ++ " | " ++ show_Cy p ++ " | " ++ show_cvec v
   | MErr e => "Err:" ++ show_merr e
+  end.
+
+(* full line of the harness: applied gates | outcomes | probability | vector | records *)
+Definition show_sim (n : nat) (r : mres (list (aitem zgate) * list bool * cvec * Cy)) : string :=
+  match r with
+  | MOk _ => show_sim_core r ++ " | " ++ show_records n r
+  | MErr _ => show_sim_core r
   end.
 
 (* entry points of the harness *)
@@ -98,4 +115,7 @@ Definition run_selected (fuel : nat) (c : cspec) (prog : list zinstr) (d : optio
   show_applied (selected zgate (ctl_of c) fuel (src_of d) [] prog).
 Definition run_sim (asis : bool) (n : nat) (fuel : nat) (c : cspec) (prefix : list zgate) (prog : list zinstr)
            (d : list bool) : string :=
-  show_sim (simulate_desired asis n fuel c prog d (zapply n prefix (ket0 n))).
+  show_sim n (simulate_desired asis n fuel c prog d (zapply n prefix (ket0 n))).
+Definition run_records (asis : bool) (n : nat) (fuel : nat) (c : cspec) (prefix : list zgate) (prog : list zinstr)
+           (d : list bool) : string :=
+  show_records n (simulate_desired asis n fuel c prog d (zapply n prefix (ket0 n))).
